@@ -226,14 +226,14 @@ def run_model_streams(run, drv):
                     impl = ["err", f"{type(e).__name__}: {str(e)[:150]}"]
                     targets = None
                 model = ["ok", model_listing(m[1]), sort_tree(model_tree(m[2]))]
-                run.corr(f"save+load({kind})", {"tree": tsx[:600], "api": api, "order": o, "num_threads": nt}, impl, model)
+                run.corr(f"save+load({kind})", {"tree": tsx, "api": api, "order": o, "num_threads": nt}, impl, model)
                 if targets is not None:
-                    run.corr("writer_tasks(submission order)", {"tree": tsx[:600]}, targets, [list(p) if isinstance(p, list) else [p] for p in m[0]])
+                    run.corr("writer_tasks(submission order)", {"tree": tsx}, targets, [list(p) if isinstance(p, list) else [p] for p in m[0]])
                 # oracle: loaded == original (keys, nesting, kinds, batch size, dtypes, shapes, values, payloads)
                 if impl[0] == "err":
-                    run.oracle_fail("load_equals_saved", {"tree": tsx[:600], "api": api, "order": o, "num_threads": nt}, f"raised {impl[1]}", f"save:{kind}:raise")
+                    run.oracle_fail("load_equals_saved", {"tree": tsx, "api": api, "order": o, "num_threads": nt}, f"raised {impl[1]}", f"save:{kind}:raise")
                 elif impl[2] != ref:
-                    run.oracle_fail("load_equals_saved", {"tree": tsx[:600], "api": api, "order": o, "num_threads": nt},
+                    run.oracle_fail("load_equals_saved", {"tree": tsx, "api": api, "order": o, "num_threads": nt},
                                     f"loaded tensordict differs from the one saved: {first_diff(ref, impl[2])}", f"save:{kind}:differs")
                 else:
                     run.oracle_ok("load_equals_saved")
@@ -250,15 +250,15 @@ def run_model_streams(run, drv):
             ml = parse_sx(drv.ask(f"(c10.like {tsx})"))
             model = ["ok", model_listing(ml[0]), sort_tree(model_tree(ml[1]))]
             run.case(("like", it))
-            run.corr("memmap_like", {"tree": tsx[:600]}, impl, model)
+            run.corr("memmap_like", {"tree": tsx}, impl, model)
             if impl[0] == "ok":
                 zero = canon(td.apply(lambda x: torch.zeros_like(x), filter_empty=False), **OPTS)
                 if canon(like, **OPTS) != zero or canon(TensorDict.load_memmap(d), **OPTS) != zero:
-                    run.oracle_fail("memmap_like_structure", {"tree": tsx[:600]}, "memmap_like does not have the structure of the original with zero content", "like")
+                    run.oracle_fail("memmap_like_structure", {"tree": tsx}, "memmap_like does not have the structure of the original with zero content", "like")
                 else:
                     run.oracle_ok("memmap_like_structure")
             else:
-                run.oracle_fail("memmap_like_structure", {"tree": tsx[:600]}, impl[1], "like:raise")
+                run.oracle_fail("memmap_like_structure", {"tree": tsx}, impl[1], "like:raise")
             shutil.rmtree(d, ignore_errors=True)
             # ---- make_memmap on the saved directory + write-through
             d = root / f"mk{it}"
@@ -266,7 +266,7 @@ def run_model_streams(run, drv):
                 saved = build(spec, b, device).memmap_(d)
                 other = TensorDict.load_memmap(d)          # a second mapping of the same files
             except Exception as e:  # noqa: BLE001
-                run.oracle_fail("load_equals_saved", {"tree": tsx[:600], "api": "memmap_"}, f"raised {type(e).__name__}: {str(e)[:150]}", "save:threads0:raise")
+                run.oracle_fail("load_equals_saved", {"tree": tsx, "api": "memmap_"}, f"raised {type(e).__name__}: {str(e)[:150]}", "save:threads0:raise")
                 shutil.rmtree(d, ignore_errors=True)
                 continue
             key = "new" + str(it % 3)
@@ -281,16 +281,16 @@ def run_model_streams(run, drv):
             mm = parse_sx(drv.ask(sx("c10.make", Raw(tsx), [], key, str(dt), shape, nbytes)))
             model = ["ok", model_listing(mm[0]), sort_tree(model_tree(mm[1]))] if mm != "none" else ["none"]
             run.case(("make", it))
-            run.corr("make_memmap(merge)", {"tree": tsx[:600], "key": key, "dtype": str(dt), "shape": shape}, impl, model)
+            run.corr("make_memmap(merge)", {"tree": tsx, "key": key, "dtype": str(dt), "shape": shape}, impl, model)
             if impl[0] == "ok":
                 exp = sort_tree(tree_of(td))
                 exp = exp[:3] + sorted(exp[3:] + [[key, ["l", str(dt), shape, [0] * nbytes]]], key=lambda kv: kv[0])
                 if impl[2] != exp:
-                    run.oracle_fail("make_memmap_merge", {"tree": tsx[:600], "key": key}, f"after make_memmap the directory does not load as old entries + new one: {first_diff(exp, impl[2])}", "make")
+                    run.oracle_fail("make_memmap_merge", {"tree": tsx, "key": key}, f"after make_memmap the directory does not load as old entries + new one: {first_diff(exp, impl[2])}", "make")
                 else:
                     run.oracle_ok("make_memmap_merge")
             else:
-                run.oracle_fail("make_memmap_merge", {"tree": tsx[:600], "key": key}, impl[1], "make:raise")
+                run.oracle_fail("make_memmap_merge", {"tree": tsx, "key": key}, impl[1], "make:raise")
             # write through: a root leaf with elements, written in place through `saved`, read through `other` and a fresh load
             cands = [k for k, v in spec if v[0] == "l" and torch.Size(v[2]).numel() > 0]
             if cands:
@@ -303,15 +303,102 @@ def run_model_streams(run, drv):
                     later = TensorDict.load_memmap(d)
                     got = [bits(other[k]), bits(later[k])]
                     model_leaf = [v for kk, v in model_tree(mw)[3:] if kk == k][0][3]
-                    run.corr("write_through(load after write)", {"tree": tsx[:600], "key": k}, got[1], model_leaf)
+                    run.corr("write_through(load after write)", {"tree": tsx, "key": k}, got[1], model_leaf)
                     bad = got[0] != bits(newv) or got[1] != bits(newv)
                     what = "an in-place write through one mapping is not seen by another mapping / a later load"
                 except Exception as e:  # noqa: BLE001
                     bad, what = True, f"write-through probe raised {type(e).__name__}: {str(e)[:150]}"
                 if bad:
-                    run.oracle_fail("write_through_mapping", {"tree": tsx[:600], "key": k}, what, "write")
+                    run.oracle_fail("write_through_mapping", {"tree": tsx, "key": k}, what, "write")
                 else:
                     run.oracle_ok("write_through_mapping")
             shutil.rmtree(d, ignore_errors=True)
+            # ---- saving into a directory that already holds an earlier save of another structure (stale files stay, must not be read)
+            if it % 2 == 0:
+                spec1 = gen_tree(rng, b)
+                td1 = build(spec1, b, device, base=5)
+                d = root / f"re{it}"
+                run.case(("resave", it))
+                try:
+                    with time_limit(180):
+                        td1.memmap(d, num_threads=rng.choice([0, 2]))
+                        build(spec, b, device).memmap(d, num_threads=rng.choice([0, 2]))
+                        impl = ["ok", sorted(x[0] for x in listing(d)), sort_tree(tree_of(TensorDict.load_memmap(d)))]
+                except TimeoutError as e:
+                    raise Infra(f"memmap timed out: {e}")
+                except Exception as e:  # noqa: BLE001
+                    impl = ["err", f"{type(e).__name__}: {str(e)[:150]}"]
+                mr = parse_sx(drv.ask(f"(c10.resave {td_sx(td1)} {tsx})"))
+                model = ["ok", sorted(list(p) if isinstance(p, list) else [p] for p in mr[0]), sort_tree(model_tree(mr[1]))]
+                run.corr("resave(existing directory)", {"first": td_sx(td1)[:400], "second": tsx[:400]}, impl, model)
+                if impl[0] == "ok" and impl[2] == ref:
+                    run.oracle_ok("load_equals_saved(existing dir)")
+                else:
+                    run.oracle_fail("load_equals_saved(existing dir)", {"first": td_sx(td1)[:400], "second": tsx[:400]},
+                                    "after saving over an earlier save, the loaded tensordict differs from the one saved" if impl[0] == "ok" else impl[1], "resave")
+                shutil.rmtree(d, ignore_errors=True)
     finally:
         shutil.rmtree(root, ignore_errors=True)
+
+
+def td_from_tree(t):
+    """tensordict from the parsed s-expression of td_sx"""
+    from tensordict import NonTensorData, TensorDict
+    from c11_hist import tensor_from
+    assert t[0] == "n"
+    d = {}
+    for k, v in t[3:]:
+        if v[0] == "l":
+            d[k] = tensor_from(v[1], list(v[2]), list(v[3]))
+        elif v[0] == "nt":
+            d[k] = NonTensorData(v[1], batch_size=list(v[2]))
+        else:
+            d[k] = td_from_tree(v)
+    return TensorDict(d, batch_size=list(t[1]))
+
+
+def replay_saves(run, drv, cases, stream="save+load(replay)"):
+    """re-run recorded save/load cases (corpus entries or the failures of a replay file)"""
+    from tensordict import TensorDict
+    root = BUILD / "tmp" / f"c10r_{run.seed}_{run.tier}"
+    shutil.rmtree(root, ignore_errors=True)
+    root.mkdir(parents=True, exist_ok=True)
+    n = 0
+    try:
+        for ci, c in enumerate(cases):
+            if not (isinstance(c, dict) and isinstance(c.get("tree"), str) and c["tree"].startswith("(n ")):
+                continue
+            n += 1
+            tsx = c["tree"]
+            parsed = parse_sx(tsx)
+            order = c.get("order")
+            nt = c.get("num_threads", 0) or 0
+            api = c.get("api", "memmap")
+            m = parse_sx(drv.ask(f"(c10.save {tsx} {sx(*order) if order else '()'})"))
+            d = root / f"r{ci}"
+            run.case(("save-replay", ci))
+            td = td_from_tree(parsed)
+            ref = sort_tree(tree_of(td))
+            try:
+                with time_limit(180):
+                    if order:
+                        with patched_pool(order=list(order)):
+                            getattr(td, api)(d, num_threads=max(nt, 2))
+                    else:
+                        getattr(td, api)(d, num_threads=nt)
+                    impl = ["ok", listing(d), sort_tree(tree_of(TensorDict.load_memmap(d)))]
+            except TimeoutError as e:
+                raise Infra(f"memmap timed out: {e}")
+            except Exception as e:  # noqa: BLE001
+                impl = ["err", f"{type(e).__name__}: {str(e)[:150]}"]
+            run.corr(stream, c, impl, ["ok", model_listing(m[1]), sort_tree(model_tree(m[2]))])
+            if impl[0] == "err":
+                run.oracle_fail("load_equals_saved", c, f"raised {impl[1]}", "save:replay:raise")
+            elif impl[2] != ref:
+                run.oracle_fail("load_equals_saved", c, f"loaded tensordict differs from the one saved: {first_diff(ref, impl[2])}", "save:replay:differs")
+            else:
+                run.oracle_ok("load_equals_saved")
+            shutil.rmtree(d, ignore_errors=True)
+    finally:
+        shutil.rmtree(root, ignore_errors=True)
+    return n
